@@ -37,9 +37,7 @@ class Entry:
 		"""
 		for entry in self.entries:
 			yield entry
-
-			for in_entry in entry.entries:
-				yield in_entry
+			yield from entry.unders()
 
 
 AltFormatter: TypeAlias = Callable[['BlockFormatter'], str | None]
